@@ -455,6 +455,30 @@ var Probes = []Probe{
 }
 
 func init() {
+	Probes = append(Probes, Probe{"read-beyond-rtmax", []string{"C11", "C19"}, 0, func(p *P) {
+		f := p.Create(p.Root, "f").RFh
+		p.Write(f, 0, 300000, 2)
+		p.Read(f, 0, 65536)
+		p.Read(f, 0, 65537)
+		p.Read(f, 100, 1<<20)
+		p.Tail()
+	}})
+	Probes = append(Probes, Probe{"readdir-bad-cookies", []string{"C11", "C13"}, 0, func(p *P) {
+		d := p.Mkdir(p.Root, "d").RFh
+		for _, n := range []string{"a", "b", "c"} {
+			p.Create(d, n)
+		}
+		for _, ck := range []int{1, 64, 127, 129, 200, 383, 385, 640, 641, 100000, HUGE} {
+			if p.Readdir(d, ck, 4096).St == "PANIC" {
+				return
+			}
+			if p.ReaddirPlus(d, ck, 4096, 16384).St == "PANIC" {
+				return
+			}
+		}
+		p.Enumerate(d, false, 4096, 5)
+		p.Tail()
+	}})
 	// systematic shrink/grow matrix around the block-map boundaries (direct 0..7, indirect 8..519, double 520..)
 	const B = 4096
 	Probes = append(Probes, Probe{"shrink-grow-matrix", []string{"C12", "C02", "C05"}, 16000, func(p *P) {
